@@ -1,9 +1,9 @@
 (* C12 — scalar and extension values have exact, canonical text forms.
-   Proofs: Proofs/DecimalProofs.v, Proofs/DurationProofs.v, Proofs/DatetimeProofs.v. *)
+   Proofs: Proofs/DecimalProofs.v, Proofs/DurationProofs.v, Proofs/DatetimeProofs.v, Proofs/IPProofs.v. *)
 From Coq Require Import ZArith List Bool Lia.
 Import ListNotations.
-From Cedar Require Import Base.Int64 Lang.Value Impl.Text Impl.Decimal Impl.Duration Impl.Datetime
-  Proofs.DecimalProofs Proofs.DurationProofs Proofs.DatetimeProofs.
+From Cedar Require Import Base.Int64 Lang.Value Impl.Text Impl.Decimal Impl.Duration Impl.Datetime Impl.IPAddr Impl.IPPrint
+  Proofs.DecimalProofs Proofs.DurationProofs Proofs.DatetimeProofs Proofs.IPProofs.
 Local Open Scope Z_scope.
 
 (* ---- decimal ---- *)
@@ -55,6 +55,24 @@ Proof. exact datetime_parse_in_range. Qed.
 Theorem C12_datetime_roundtrip_full_refuted : exists z, in64 z /\ parse_datetime (print_datetime z) = None.
 Proof. exists min64. split; [unfold in64, min64, max64, two63; lia | vm_compute; reflexivity]. Qed.
 
+(* ipaddr: Impl/IPPrint.v print_ip (net/netip Addr.String / Prefix.String as types.IPAddr.String uses them) and Impl/IPAddr.v parse_ip
+   (types.ParseIPAddr), both tied to the code by the scalar correspondences.  Every well-formed address and prefix prints to a string
+   that parses back to it, EXCEPT the IPv4-mapped IPv6 addresses (known finding F30: they print as ::ffff:a.b.c.d, which the parser
+   rejects); ip_ok is exactly the set that round-trips. *)
+Theorem C12_ipaddr_roundtrip : forall v6 a p, ip_ok v6 a p = true -> parse_ip (print_ip v6 a p) = Some (v6, a, p).
+Proof. exact parse_print_ip. Qed.
+Theorem C12_ipaddr_roundtrip_exact : forall v6 a p, ip_wf v6 a p -> (parse_ip (print_ip v6 a p) = Some (v6, a, p) <-> ip_ok v6 a p = true).
+Proof. exact ip_ok_exact. Qed.
+Theorem C12_ipaddr_mapped_refuted : forall a p, a / 2 ^ 32 = 65535 -> parse_ip (print_ip true a p) = None.
+Proof. exact mapped_never_roundtrips. Qed.
+(* the printed form is plain ASCII without quotes or backslashes (what the policy printer relies on: C07 / C08) *)
+Theorem C12_ipaddr_printed_plain : forall v6 a p, Forall (fun c => 32 <= c < 127 /\ c <> 34 /\ c <> 92) (print_ip v6 a p).
+Proof. exact print_ip_plain_all. Qed.
+
+Print Assumptions C12_ipaddr_roundtrip.
+Print Assumptions C12_ipaddr_roundtrip_exact.
+Print Assumptions C12_ipaddr_mapped_refuted.
+Print Assumptions C12_ipaddr_printed_plain.
 Print Assumptions C12_decimal_roundtrip.
 Print Assumptions C12_decimal_range.
 Print Assumptions C12_decimal_syntax.
